@@ -422,7 +422,7 @@ def run(prop, tier, seed, replay):
         'distinct_nontrivial': len(R.distinct),
         'rule': 'a case is non-trivial when the writer had to change at least one name (identifier != name); distinct by hash of the sibling list / netlist spec; `evaluations` = identifiers judged by the oracle',
         'samples': R.samples or [{'note': 'no sample kept'}],
-        'exhaustive': 'sibling pairs/triples over short names of the adversarial alphabet %s (see histogram cases/*); everything else sampled' % ''.join(G.ALPHABET),
+        'exhaustive': False, 'exhaustive_part': 'sibling pairs/triples over short names of the adversarial alphabet %s (see histogram cases/*); everything else sampled' % ''.join(G.ALPHABET),
         'histogram': dict(sorted(R.hist.items())),
         'failure_signatures': dict(sorted(R.sig_hist.items())),
         'known_findings_matched': dict(R.known_hits),
